@@ -30,7 +30,9 @@ REQUIRED_REACH = ['redirect:issued', 'redirect:followed-ok', 'redirect:significa
 NSHARDS = 16
 MODES = ['redirect', 'rewrite', 'strict']
 SEGS = ['abc', 'a b', 'a?b', 'a#b', 'a%b', 'a%41b', 'a;b', 'a&b=c', 'é', 'a+b', '..', '%2F', '.', 'a=b', 'a"b', "a'b",
-        'a<b>', 'ü-ñ', '%', '??', '#', 'x@y:z', '~t', 'a,b', '日本', '%zz', 'a\\b', '[x]', '{y}', 'a|b', '^', '`']
+        'a<b>', 'ü-ñ', '%', '??', '#', 'x@y:z', '~t', 'a,b', '日本', '%zz', 'a\\b', '[x]', '{y}', 'a|b', '^', '`',
+        # text that Unicode normalisation would rewrite (decomposed accents, conjoining jamo, compatibility characters)
+        'cafe\u0301', '\u1112\u1161\u11ab', '\u212b', 'ﬁ', 'A\u030a', '\u2126hm']
 QUERIES = ['', 'k=v', 'a=1&b=2', 'x=%41', 'q=a+b', 'q=a%20b', 'u=http://x/y?z=1', 'a;b', 'x=%E9', 'empty=', '=', '&&', 'k=v?w',
            'a=1&a=2', 'x=%2F%2F']
 METHODS = ['GET', 'HEAD', 'POST', 'PUT', 'DELETE', 'OPTIONS', 'PATCH', 'TRACE', 'CONNECT']
@@ -325,7 +327,10 @@ def check_location(sh, case, app, ex, canon, bad):
     except UnicodeError:
         bad('location-not-ascii', 'Location %r' % loc)
         return
-    sp = urlsplit(loc)
+    # a relative reference is resolved against the request URL, as a client does (RFC 7231 7.1.2)
+    from urllib.parse import urljoin, quote
+    base = 'http://verif.test' + quote(probe.wsgi_str(script).encode('latin-1')) + '/'
+    sp = urlsplit(urljoin(base, loc))
     if sp.scheme != 'http' or sp.netloc != 'verif.test':
         bad('location-other-origin', 'Location %r' % loc)
         return
